@@ -31,7 +31,9 @@ def build(rng, root):
         nodes = tree.gen_tree(rng, max_entries=45, max_depth=4, kinds=("file", "dir", "symlink"),
                               content=lambda r: b"".join(b"l\n" for _ in range(r.choice([0, 1, 2, 3, 7, 10, 33]))) + b"x" * r.choice([0, 1, 2, 5, 150]))
         if shape == "big":
-            for i, s in enumerate(rng.sample([2 ** 31 + 1, 2 ** 32 + 3, 2 ** 40 + 7, 2 ** 33, 10 ** 12 + 1, 2 ** 41 + 5], 3)):
+            # the last three: sizes whose sum passes 2^53 with odd low bits (a sum kept in a double would be rounded)
+            for i, s in enumerate(rng.sample([2 ** 31 + 1, 2 ** 32 + 3, 2 ** 40 + 7, 2 ** 33, 10 ** 12 + 1, 2 ** 41 + 5], 3)
+                                  + rng.choice([[], [2 ** 52 + 1, 2 ** 52 + 3, 2 ** 52 + 7]])):
                 nodes.append({"path": "big%d" % i, "kind": "file", "size": s, "sparse": True})
     for n in nodes:
         if n["kind"] != "symlink":
